@@ -162,7 +162,11 @@ Plan gen_lz4(u64 seed) {
             Fault f; f.tag = r.chance(1, 2) ? "Silf" : "Glat"; f.nth = -1;
             auto it = fi->tables.find(mktag(f.tag.c_str())); size_t sz = it == fi->tables.end() ? 64 : it->second.size() / 3 + 16;
             u32 c = r.below(10);
-            if (c < 3) { f.kind = "BITROT"; f.a = {i64(r.below(8)), i64(1u << r.below(8))}; }                  // header (version / scheme / size)
+            if (c < 2) {      // the announced size lowered / raised by a few bytes (a literal run or a match that no longer fits)
+                auto it2 = fi->tables.find(mktag(f.tag.c_str())); u32 approx = it2 == fi->tables.end() ? 1000 : u32(it2->second.size());
+                (void)approx; f.kind = "SIZEROT"; f.a = {i64(r.below(2) ? -(1 + i64(r.below(12))) : 1 + i64(r.below(12)))};
+            }
+            else if (c < 3) { f.kind = "BITROT"; f.a = {i64(r.below(8)), i64(1u << r.below(8))}; }                  // header (version / scheme / size)
             else if (c < 7) { f.kind = "BITROT"; unsigned m = 1 + r.below(2); for (unsigned q = 0; q < m; ++q) { f.a.push_back(i64(8 + (r.chance(1, 2) ? r.below(64) : r.below(u32(sz))))); f.a.push_back(r.chance(1, 2) ? i64(1u << r.below(8)) : i64(1 + r.below(255))); } }
             else if (c < 8) { f.kind = "TRUNCATE"; f.a = {i64(r.chance(1, 2) ? r.below(40) : r.below(u32(sz)))}; }
             else if (c < 9) { f.kind = "TORN"; f.a = {i64(r.below(u32(sz)) & ~15u), 16 << r.below(4), 0}; }
